@@ -15,6 +15,13 @@ DESC = {
  'C07': ('model_checking', 'NULL iff full column rank; otherwise n x (n-r), A*K = 0, rank K = n-r', TV),
  'C08': ('model_checking', 'exact GF2 operators for add (all aliasing forms), transpose (all kernel size classes), copy, copy_row, submatrix, concat, stack, extract_u/l, set_ui with bit-exact comparison of all touched memory', TV),
  'C09': ('model_checking', 'all operation families re-run with every operand a window at sampled placements inside junk-filled parents; TLC checks result = result on the viewed block, and that no bit of any parent outside a written view changed', TV + ' with frame condition over raw parent memory'),
+ 'C10': ('model_checking', 'the op lists of C01-C08 are executed under three environments (fresh; allocator poisoning on hand-out/release; warmed-up block cache with recycled blocks filled with ones) and the recorded traces must be byte-identical and accepted by the same specification; the specification checks zero padding of every produced or changed owner after every call', TV + '; byte-wise comparison of traces across environments'),
+ 'C11': ('other', 'abort discipline (bad dimensions end in m4ri_die with operands untouched) and allocation balance (leak = 0, exact in the cache-less build) are judged by TLC on recorded calls; absence of undefined behaviour / out-of-bounds / misaligned accesses rests on clang ASan+UBSan observing the spec-enumerated executions of all families (owners and windows)', 'TLC trace validation of abort discipline and allocation balance + ASan/UBSan observation of the explored executions'),
+ 'C12': ('model_checking', 'the identical seeded op list of C01-C07 (random k, cutoffs) runs in 6 (quick) / 16 (thorough) build configurations (cache triples x SSE2 x caches x OpenMP); every trace is accepted by the one configuration-free specification, hence all configurations agree', TV + ' per build configuration'),
+ 'C14': ('model_checking', 'Alloc.tla models the block cache and the header cache; MC_Alloc checks storage disjointness, exact bookkeeping, no leak / no use after release, windows never release storage and nothing retained after cleanup over all interleavings up to depth 6 (quick) / 8 (thorough) with reachability witnesses for eviction, spill and unlink; TLC generates one history per distinct allocator state for the reduced-capacity build (hook H4) and the harness replays them on the real allocator; long random histories at the real capacities (>1024 live headers) are validated against the same specification, comparing the exact sequence of heap calls of every operation plus fresh-zero / disjointness / canary observables under heap poisoning', 'TLA+ state machine (Alloc.tla): bounded TLC model check + TLC-generated histories replayed on the real allocator + TLC trace validation'),
+ 'C18': ('model_checking', 'PNG round trips over all column residues, compression levels and comments; string constructor; JCF.tla token-level reader specification with TLC enumerating every valid file of small matrices, every single-token corruption and every truncation (6208 files) executed by the real reader (also under ASan/UBSan); foreign and malformed PNGs of every bit depth x colour type x interlace, truncated and with corrupted bytes', 'TLA+ JCF specification + TLC-generated files run through the real readers + TLC trace validation'),
+ 'C19': ('model_checking', 'MC_Gray is exhaustive for k = 1..16 and all 2^k entries (distinct values, one-bit steps, inc = index of the bit, table built by successive additions = sum of the rows selected by x); the code book dumped from the library and mzd_make_table outputs are compared with the specification by TLC; parity64, bit reversal, spread/shrink on complete single-bit bases plus random words; all 65 mask lengths x 64 offsets', 'exhaustive TLC model check (finite domain) + TLC validation of tables dumped from the real library'),
+ 'C20': ('fault_enumeration', 'for 42 scenarios (every operation family, each regime) and EVERY allocation request i of the scenario the i-th request fails in a fresh child; AllocFault.tla allows one continuation (controlled abort through m4ri_die); TLC checks that every position was injected and every fate is the allowed one', 'fault enumeration over every allocation request of every scenario, judged by TLC against AllocFault.tla'),
  'C13': ('model_checking', 'row/column operations, bit ranges and the five permutation applications judged by LAPACK-swap semantics of the specification; inverse laws and permutation-matrix laws model-checked for all permutations of length <= 4 (MC_GF2)', TV),
  'C17': ('model_checking', 'equal/cmp/is_zero/find_pivot (relational)/first_zero_row/read-after-write on one-bit-different pairs at every position class, owned and (through C09) windowed', TV),
 }
